@@ -299,6 +299,7 @@ func cacheImage(c *cdi.Cache) map[string]any {
 		}
 	}
 	img["defs"] = defs
+	img["vendors"], img["classes"] = c.ListVendors(), c.ListClasses()
 	// files in error (directory monitoring errors of the auto-refresh cache are not files)
 	keys := []string{}
 	for k := range c.GetErrors() {
@@ -439,6 +440,9 @@ func (watchStream) Execute(c Case) {
 		defer func() { _ = cache.Configure(cdi.WithAutoRefresh(false)) }()
 		pacing, _ := c["pacing"].(string)
 		ops, _ := c["ops"].([]any)
+		if ob, _ := c["observe"].(string); ob != "inject" {
+			_ = cacheImage(cache) // every kind of listing has been asked for once before anything changes
+		}
 		counter := 0
 		locked := false
 		var applied []any
